@@ -69,6 +69,14 @@ class Fixtures(object):
         return base + ("." + comp if comp in ("gz", "zip", "xz") else "")
 
 
+def _value(v):
+    """an unknown value is not always a string: 'list:x' stands for the list [x] (one mode per file, two kinds of examples ...),
+    'dict' for a dictionary, 'int' for a number"""
+    if v.startswith("list:"):
+        return [v[5:]]
+    return {"dict": {"mode": "zip"}, "int": 7}.get(v, v)
+
+
 def ctor_kwargs(a, fx):
     import rdflib
     fmt = a["fmt"]
@@ -98,11 +106,11 @@ def ctor_kwargs(a, fx):
                  "target_classes": [], "shape_map_raw": ""}[e]
     if a["allc"]:
         kw["all_classes_mode"] = True
-    kw["input_format"] = fmt
+    kw["input_format"] = _value(fmt)
     if a["comp"] != "none":
-        kw["compression_mode"] = a["comp"]
+        kw["compression_mode"] = _value(a["comp"])
     if a["ex"] != "none":
-        kw["examples_mode"] = a["ex"]
+        kw["examples_mode"] = _value(a["ex"])
     kw["disable_or_statements"] = a["disableOr"]
     kw["allow_redundant_or"] = a["redundantOr"]
     return kw
@@ -140,7 +148,7 @@ def _try_call(c):
             sh = Shaper(graph_file_input=os.path.join(d, "missing.nt"), all_classes_mode=True)
         else:
             sh = Shaper(raw_graph=NT_TEXT, all_classes_mode=True)
-        kw = {"string_output": c["string"], "output_format": c["ofmt"], "acceptance_threshold": c["thrnum"] / c["thrden"]}
+        kw = {"string_output": c["string"], "output_format": _value(c["ofmt"]), "acceptance_threshold": c["thrnum"] / c["thrden"]}
         if c["file"]:
             kw["output_file"] = os.path.join(d, "out.txt")
         if c.get("uml"):
@@ -157,10 +165,10 @@ def _try_call(c):
 
 def arg_vectors(tier, rnd):
     # invalid values include case variants and near misses of the valid identifiers, not only an arbitrary string
-    fmts = ["nt", "turtle", "tsv_spo", "turtle_iter", "json-ld", "bogus", "NT", "Turtle"] if tier == "quick" else \
-        ["nt", "tsv_spo", "n3", "turtle", "xml", "json-ld", "turtle_iter", "bogus", "NT", "Turtle", "N3", "ttl", "rdf/xml", ""]
-    comps = ["none", "gz", "zip", "bogus", "GZ"] if tier == "quick" else ["none", "gz", "zip", "xz", "bogus", "GZ", "Zip", "gzip", ""]
-    exs = ["none", "all", "bogus", "ALL"] if tier == "quick" else ["none", "shape", "cons", "all", "bogus", "ALL", "Shape", "constraint", ""]
+    fmts = ["nt", "turtle", "tsv_spo", "turtle_iter", "json-ld", "bogus", "NT", "Turtle", "list:nt"] if tier == "quick" else \
+        ["nt", "tsv_spo", "n3", "turtle", "xml", "json-ld", "turtle_iter", "bogus", "NT", "Turtle", "N3", "ttl", "rdf/xml", "", "list:nt", "dict", "int"]
+    comps = ["none", "gz", "zip", "bogus", "GZ", "list:gz"] if tier == "quick" else ["none", "gz", "zip", "xz", "bogus", "GZ", "Zip", "gzip", "", "list:gz", "dict", "int"]
+    exs = ["none", "all", "bogus", "ALL", "list:all"] if tier == "quick" else ["none", "shape", "cons", "all", "bogus", "ALL", "Shape", "constraint", "", "list:all", "dict", "int"]
     srcsets = [()] + [(s,) for s in SOURCES] + list(itertools.combinations(SOURCES, 2))
     if tier == "thorough":
         srcsets += list(itertools.combinations(SOURCES, 3))
@@ -227,7 +235,7 @@ def check_c20(out, tier):
     calls = []
     i = 0
     for thr in (-1, 0, 1, 50, 100, 101):
-        for ofmt in ("ShEx", "Shacl", "bogus"):
+        for ofmt in ("ShEx", "Shacl", "bogus", "list:ShEx"):
             for string in (False, True):
                 for file in (False, True):
                     for history in ("fresh", "after_valid", "repeat", "valid_then_repeat"):
@@ -236,12 +244,12 @@ def check_c20(out, tier):
                         i += 1
                     # a UML image as a sink (needs a rendering server: only the calls whose other arguments are invalid are run -
                     # they must be rejected before anything is rendered)
-                    if thr in (-1, 101) or ofmt == "bogus":
+                    if thr in (-1, 101) or ofmt not in ("ShEx", "Shacl"):
                         calls.append({"id": "c%d" % i, "thrnum": thr, "thrden": 100, "ofmt": ofmt, "string": string, "file": file, "uml": True,
                                       "history": "fresh", "source": "ok"})
                         i += 1
                     # an unreadable source: invalid call arguments must be reported as such, not masked by the I/O failure
-                    if thr in (-1, 101) or ofmt == "bogus" or not (string or file):
+                    if thr in (-1, 101) or ofmt not in ("ShEx", "Shacl") or not (string or file):
                         calls.append({"id": "c%d" % i, "thrnum": thr, "thrden": 100, "ofmt": ofmt, "string": string, "file": file, "uml": False,
                                       "history": "fresh", "source": "unreadable"})
                         i += 1
